@@ -282,131 +282,187 @@ def runMfdefl (F : FieldCtx) (fname : String) (bs : List Nat) (impl : String) : 
   let m ← flagDispatch fname (fun Fl _ => deStr showExtFl (runM (extDeFlags F.c Fl F.t) bs))
   some (m, judgeFieldMal F (flagWidth fname) bs impl)
 
-/-! ## point ops (prime base fields) -/
+/-! ## point ops, generic in the coordinate field (`Fp p` or the spec-level `Fp2 p β`) -/
 
-structure CurveCtx where
-  te : Bool
+/-- what the driver needs to know about a coordinate field -/
+structure Kit (F : Type) where
   c : FpCfg
-  a : Nat
-  b : Nat          -- `b` (SW) or `d` (TE)
+  /-- extension degree -/
+  k : Nat
+  codec : Codec F
+  toCoeffs : F → List Nat
+  ofCoeffs : List Nat → Option F
+  /-- spec: `r • (x, y) = O` in the group of `y² = x³ + a·x + b` -/
+  swKills : (a b : F) → (r : Nat) → (x y : F) → Bool
+  /-- curve-specific subgroup tests announced on the line (`g2:…`) -/
+  fastSub : (a : F) → String → Option (SWAff F → Bool)
+
+def kitFp (c : FpCfg) : Kit (Fp c.p) where
+  c := c
+  k := 1
+  codec := fpCodec c
+  toCoeffs x := [x.val]
+  ofCoeffs cs := match cs with | [x] => some ⟨x⟩ | _ => none
+  swKills a b r x y := (AffPt.smul (p := c.p) (E := ⟨a, b⟩) r ⟨some (x, y)⟩).pt.isNone
+  fastSub _ _ := none
+
+/-- `g2:<X>:<neg>:<K0.c1>:<K1.c0>:<K1.c1>` -/
+def parseG2 {p β : Nat} (a : Fp2 p β) (s : String) : Option (SWAff (Fp2 p β) → Bool) :=
+  match s.splitOn ":" with
+  | ["g2", x, neg, k0c1, k1c0, k1c1] => do
+    let x ← parseHex? x
+    let neg ← parseHex? neg
+    let k0c1 ← parseHex? k0c1
+    let k1c0 ← parseHex? k1c0
+    let k1c1 ← parseHex? k1c1
+    some (g2InSubgroup a x (neg == 1) ⟨k0c1⟩ ⟨⟨k1c0⟩, ⟨k1c1⟩⟩)
+  | _ => none
+
+def kitFp2 (c : FpCfg) (β : Nat) : Kit (Fp2 c.p β) where
+  c := c
+  k := 2
+  codec := fp2Codec c β
+  toCoeffs x := [x.c0.val, x.c1.val]
+  ofCoeffs cs := match cs with | [a, b] => some ⟨⟨a⟩, ⟨b⟩⟩ | _ => none
+  swKills a _ r x y := (gSmul a r (some (x, y))).isNone
+  fastSub a s := parseG2 a s
+
+section generic
+variable {F : Type} [Add F] [Sub F] [Mul F] [Neg F] [Zero F] [One F] [Inv F] [DecidableEq F]
+
+structure Curve (F : Type) where
+  te : Bool
+  a : F
+  b : F            -- `b` (SW) or `d` (TE)
   r : Nat
   h1 : Bool
+  /-- overriding subgroup test (SW) -/
+  sub : Option (SWAff F → Bool)
 
-def parseCD (kind p n t a b r h1 : String) : Option CurveCtx := do
+def parseF (K : Kit F) (s : String) : Option F := do
+  let cs ← parseList? s
+  K.ofCoeffs cs
+
+def fStr (K : Kit F) (x : F) : String := hexList (K.toCoeffs x)
+
+def parseCurve (K : Kit F) (kind a b r h1 : String) : Option (Curve F) := do
   let te ← if kind == "sw" then some false else if kind == "te" then some true else none
-  let p ← parseHex? p
-  let n ← parseHex? n
-  if t != "_" then none
-  let a ← parseHex? a
-  let b ← parseHex? b
+  let a ← parseF K a
+  let b ← parseF K b
   let r ← parseHex? r
-  let h1 ← parseHex? h1
-  some ⟨te, ⟨p, n⟩, a, b, r, h1 == 1⟩
+  if h1 == "0" then some ⟨te, a, b, r, false, none⟩
+  else if h1 == "1" then some ⟨te, a, b, r, true, none⟩
+  else match K.fastSub a h1 with
+    | some f => some ⟨te, a, b, r, false, some f⟩
+    | none => none
 
-def fpStr {p : Nat} (x : Fp p) : String := hex x.val
+def parseFs (K : Kit F) (s : String) : Option (List F) := mapM? (parseF K) (s.splitOn "/")
 
-def parseFps (p : Nat) (s : String) : Option (List (Fp p)) :=
-  mapM? (fun t => (parseHex? t).map (fun n => (⟨n⟩ : Fp p))) (s.splitOn "/")
+def isZeroF (K : Kit F) (x : F) : Bool := (K.toCoeffs x).all (· == 0)
+def reducedF (K : Kit F) (x : F) : Bool := (K.toCoeffs x).all (· < K.c.p)
 
-def swAffStr {p : Nat} (P : SWAff (Fp p)) : String :=
+def swAffStr (K : Kit F) (P : SWAff F) : String :=
   if P.infinity then
-    (if P.x.val == 0 && P.y.val == 0 then "inf" else "inf!" ++ fpStr P.x ++ "/" ++ fpStr P.y)
-  else fpStr P.x ++ "/" ++ fpStr P.y
+    (if isZeroF K P.x && isZeroF K P.y then "inf" else "inf!" ++ fStr K P.x ++ "/" ++ fStr K P.y)
+  else fStr K P.x ++ "/" ++ fStr K P.y
 
-def swProjStr {p : Nat} (P : SWProj (Fp p)) : String := fpStr P.x ++ "/" ++ fpStr P.y ++ "/" ++ fpStr P.z
-def teAffStr {p : Nat} (P : TEAff (Fp p)) : String := fpStr P.x ++ "/" ++ fpStr P.y
-def teProjStr {p : Nat} (P : TEProj (Fp p)) : String :=
-  fpStr P.x ++ "/" ++ fpStr P.y ++ "/" ++ fpStr P.t ++ "/" ++ fpStr P.z
+def swProjStr (K : Kit F) (P : SWProj F) : String := fStr K P.x ++ "/" ++ fStr K P.y ++ "/" ++ fStr K P.z
+def teAffStr (K : Kit F) (P : TEAff F) : String := fStr K P.x ++ "/" ++ fStr K P.y
+def teProjStr (K : Kit F) (P : TEProj F) : String :=
+  fStr K P.x ++ "/" ++ fStr K P.y ++ "/" ++ fStr K P.t ++ "/" ++ fStr K P.z
 
-def parseSwAff (p : Nat) (s : String) : Option (SWAff (Fp p)) :=
-  if s == "inf" then some ⟨⟨0⟩, ⟨0⟩, true⟩
+def parseSwAff (K : Kit F) (s : String) : Option (SWAff F) :=
+  if s == "inf" then some ⟨0, 0, true⟩
   else if s.startsWith "inf!" then
-    match parseFps p (s.drop 4).toString with
+    match parseFs K (s.drop 4).toString with
     | some [x, y] => some ⟨x, y, true⟩
     | _ => none
-  else match parseFps p s with
+  else match parseFs K s with
     | some [x, y] => some ⟨x, y, false⟩
     | _ => none
 
 /-- spec: the affine point (`none` = identity) a parsed input denotes -/
-def swAffCanon {p : Nat} (P : SWAff (Fp p)) : Option (Nat × Nat) :=
-  if P.infinity then none else some (P.x.val, P.y.val)
+def swAffCanon (P : SWAff F) : Option (F × F) := if P.infinity then none else some (P.x, P.y)
 
-def swProjCanon {p : Nat} (P : SWProj (Fp p)) : Option (Nat × Nat) :=
-  if P.z.val % p == 0 then none
+def swProjCanon (P : SWProj F) : Option (F × F) :=
+  if P.z = 0 then none
   else
     let zi := P.z⁻¹
-    some ((P.x * (zi * zi)).val, (P.y * (zi * zi * zi)).val)
+    some (P.x * (zi * zi), P.y * (zi * zi * zi))
 
-def teProjCanon {p : Nat} (P : TEProj (Fp p)) : Nat × Nat :=
+def teProjCanon (P : TEProj F) : F × F :=
   let zi := P.z⁻¹
-  ((P.x * zi).val, (P.y * zi).val)
+  (P.x * zi, P.y * zi)
+
+def swOnCurve (C : Curve F) (P : Option (F × F)) : Bool :=
+  match P with
+  | none => true
+  | some (x, y) => y * y == x * x * x + C.a * x + C.b
 
 /-- spec: validity of an affine SW point: coordinates reduced, on the curve, killed by `r` -/
-def swValid (C : CurveCtx) (P : Option (Nat × Nat)) : Bool :=
+def swValid (K : Kit F) (C : Curve F) (P : Option (F × F)) : Bool :=
   match P with
   | none => true
-  | some (x, y) =>
-    let p := C.c.p
-    x < p && y < p && (y * y) % p == (x * x * x + C.a * x + C.b) % p &&
-      (AffPt.smul (p := p) (E := ⟨⟨C.a⟩, ⟨C.b⟩⟩) C.r ⟨some (⟨x⟩, ⟨y⟩)⟩).pt.isNone
+  | some (x, y) => reducedF K x && reducedF K y && swOnCurve C P && K.swKills C.a C.b C.r x y
 
-def swOnCurve (C : CurveCtx) (P : Option (Nat × Nat)) : Bool :=
-  match P with
-  | none => true
-  | some (x, y) => let p := C.c.p; (y * y) % p == (x * x * x + C.a * x + C.b) % p
-
-def teOnCurve (C : CurveCtx) (P : Nat × Nat) : Bool :=
-  let p := C.c.p
+def teOnCurve (C : Curve F) (P : F × F) : Bool :=
   let (x, y) := P
-  (C.a * x * x + y * y) % p == (1 + C.b * (x * x % p) * (y * y % p)) % p
+  C.a * x * x + y * y == 1 + C.b * (x * x) * (y * y)
 
-def teValid (C : CurveCtx) (P : Nat × Nat) : Bool :=
-  let p := C.c.p
-  P.1 < p && P.2 < p && teOnCurve C P &&
-    teSmul (F := Fp p) ⟨C.a⟩ ⟨C.b⟩ C.r ⟨⟨P.1⟩, ⟨P.2⟩⟩ == (⟨⟨0⟩, ⟨1 % p⟩⟩ : TEAff (Fp p))
+def teValid (K : Kit F) (C : Curve F) (P : F × F) : Bool :=
+  reducedF K P.1 && reducedF K P.2 && teOnCurve C P &&
+    teSmul C.a C.b C.r ⟨P.1, P.2⟩ == (TEAff.zero : TEAff F)
+
+/-- `y ≤ −y` in the lexicographic order with the LAST coefficient most significant: the most
+    significant non-zero coefficient `c` satisfies `c ≤ p − c` -/
+def signPosF (K : Kit F) (y : F) : Bool :=
+  match (K.toCoeffs y).reverse.find? (· != 0) with
+  | none => true
+  | some c => c ≤ K.c.p - c
 
 /-- advertised size of a point -/
-def specPointSize (C : CurveCtx) (cm : Compress) : Nat :=
-  let bits := C.c.bits
+def specPointSize (K : Kit F) (C : Curve F) (cm : Compress) : Nat :=
+  let bits := K.c.bits
   match C.te, cm with
-  | false, .yes => ceil8 (bits + 2)
-  | false, .no => ceil8 bits + ceil8 (bits + 2)
-  | true, .yes => ceil8 (bits + 1)
-  | true, .no => ceil8 bits + ceil8 bits
+  | false, .yes => specSize bits 2 K.k
+  | false, .no => specSize bits 0 K.k + specSize bits 2 K.k
+  | true, .yes => specSize bits 1 K.k
+  | true, .no => specSize bits 0 K.k + specSize bits 0 K.k
+
+/-- spec-decode one coordinate carrying `f` flag bits -/
+def specCoord (K : Kit F) (f : Nat) (bs : List Nat) : Option (F × Nat) :=
+  match specDecode K.c.p K.c.bits f K.k bs with
+  | .ok cs fb => (K.ofCoeffs cs).map (fun x => (x, fb))
+  | _ => none
 
 /-- the serialiser's output `bs` is THE encoding of the SW point `P`:
     compressed `x ‖ flags`, uncompressed `x ‖ y ‖ flags`; identity: zero coordinates and the infinity bit;
     otherwise the sign bit of `y` (`y > −y`) -/
-def encStrictSW (C : CurveCtx) (cm : Compress) (bs : List Nat) (P : Option (Nat × Nat)) : Bool :=
-  let p := C.c.p
-  let bits := C.c.bits
-  let flagOf (y : Nat) : Nat := if signPos p y then 0 else 2
+def encStrictSW (K : Kit F) (cm : Compress) (bs : List Nat) (P : Option (F × F)) : Bool :=
+  let flagOf (y : F) : Nat := if signPosF K y then 0 else 2
   match cm with
   | .yes =>
-    match specDecode p bits 2 1 bs, P with
-    | .ok [x'] fb, none => x' == 0 && fb == 1
-    | .ok [x'] fb, some (x, y) => x' == x && fb == flagOf y
+    match specCoord K 2 bs, P with
+    | some (x', fb), none => isZeroF K x' && fb == 1
+    | some (x', fb), some (x, y) => x' == x && fb == flagOf y
     | _, _ => false
   | .no =>
-    let s0 := ceil8 bits
-    match specDecode p bits 0 1 (bs.take s0), specDecode p bits 2 1 (bs.drop s0), P with
-    | .ok [x'] _, .ok [y'] fb, none => x' == 0 && y' == 0 && fb == 1
-    | .ok [x'] _, .ok [y'] fb, some (x, y) => x' == x && y' == y && fb == flagOf y
+    let s0 := specSize K.c.bits 0 K.k
+    match specCoord K 0 (bs.take s0), specCoord K 2 (bs.drop s0), P with
+    | some (x', _), some (y', fb), none => isZeroF K x' && isZeroF K y' && fb == 1
+    | some (x', _), some (y', fb), some (x, y) => x' == x && y' == y && fb == flagOf y
     | _, _, _ => false
 
-def encStrictTE (C : CurveCtx) (cm : Compress) (bs : List Nat) (P : Nat × Nat) : Bool :=
-  let p := C.c.p
-  let bits := C.c.bits
+def encStrictTE (K : Kit F) (cm : Compress) (bs : List Nat) (P : F × F) : Bool :=
   match cm with
   | .yes =>
-    match specDecode p bits 1 1 bs with
-    | .ok [y'] fb => y' == P.2 && fb == (if signPos p P.1 then 0 else 1)
+    match specCoord K 1 bs with
+    | some (y', fb) => y' == P.2 && fb == (if signPosF K P.1 then 0 else 1)
     | _ => false
   | .no =>
-    let s0 := ceil8 bits
-    match specDecode p bits 0 1 (bs.take s0), specDecode p bits 0 1 (bs.drop s0) with
-    | .ok [x'] _, .ok [y'] _ => x' == P.1 && y' == P.2
+    let s0 := specSize K.c.bits 0 K.k
+    match specCoord K 0 (bs.take s0), specCoord K 0 (bs.drop s0) with
+    | some (x', _), some (y', _) => x' == P.1 && y' == P.2
     | _, _ => false
 
 /-- a point ACCEPTED by the deserialiser is the one the bytes describe: the transmitted coordinates
@@ -415,104 +471,123 @@ def encStrictTE (C : CurveCtx) (cm : Compress) (bs : List Nat) (P : Nat × Nat) 
     Byte strings that the strict format description does not parse (a non-reduced integer, stray
     bits) are outside this relation: accepting them is a uniqueness matter (C09 `funiq`), C10 only
     requires the returned point to be valid. -/
-def decConsistentSW (C : CurveCtx) (cm : Compress) (bs : List Nat) (P : Option (Nat × Nat)) : Bool :=
-  let p := C.c.p
-  let bits := C.c.bits
+def decConsistentSW (K : Kit F) (C : Curve F) (cm : Compress) (bs : List Nat) (P : Option (F × F)) : Bool :=
   match cm with
   | .yes =>
-    match specDecode p bits 2 1 bs, P with
-    | .ok [_] fb, none => fb == 1
-    | .ok [x'] fb, some (x, y) =>
-      x' == x && swOnCurve C P && (fb == 0 || fb == 2) && (y == 0 || (fb == 0) == signPos p y)
-    | .ok _ _, _ => false
-    | _, _ => true
+    match specCoord K 2 bs, P with
+    | some (_, fb), none => fb == 1
+    | some (x', fb), some (x, y) =>
+      x' == x && swOnCurve C P && (fb == 0 || fb == 2) && (isZeroF K y || (fb == 0) == signPosF K y)
+    | none, _ => true
   | .no =>
-    let s0 := ceil8 bits
-    match specDecode p bits 0 1 (bs.take s0), specDecode p bits 2 1 (bs.drop s0), P with
-    | .ok [_] _, .ok [_] fb, none => fb == 1
-    | .ok [x'] _, .ok [y'] fb, some (x, y) => x' == x && y' == y && (fb == 0 || fb == 2)
-    | .ok _ _, .ok _ _, _ => false
+    let s0 := specSize K.c.bits 0 K.k
+    match specCoord K 0 (bs.take s0), specCoord K 2 (bs.drop s0), P with
+    | some _, some (_, fb), none => fb == 1
+    | some (x', _), some (y', fb), some (x, y) => x' == x && y' == y && (fb == 0 || fb == 2)
     | _, _, _ => true
 
-def decConsistentTE (C : CurveCtx) (cm : Compress) (bs : List Nat) (P : Nat × Nat) : Bool :=
-  let p := C.c.p
-  let bits := C.c.bits
+def decConsistentTE (K : Kit F) (C : Curve F) (cm : Compress) (bs : List Nat) (P : F × F) : Bool :=
   match cm with
   | .yes =>
-    match specDecode p bits 1 1 bs with
-    | .ok [y'] fb => y' == P.2 && teOnCurve C P && (P.1 == 0 || (fb == 0) == signPos p P.1)
-    | .ok _ _ => false
-    | _ => true
+    match specCoord K 1 bs with
+    | some (y', fb) => y' == P.2 && teOnCurve C P && (isZeroF K P.1 || (fb == 0) == signPosF K P.1)
+    | none => true
   | .no =>
-    let s0 := ceil8 bits
-    match specDecode p bits 0 1 (bs.take s0), specDecode p bits 0 1 (bs.drop s0) with
-    | .ok [x'] _, .ok [y'] _ => x' == P.1 && y' == P.2
-    | .ok _ _, .ok _ _ => false
+    let s0 := specSize K.c.bits 0 K.k
+    match specCoord K 0 (bs.take s0), specCoord K 0 (bs.drop s0) with
+    | some (x', _), some (y', _) => x' == P.1 && y' == P.2
     | _, _ => true
 
+/-- the curve records handed to the model: default subgroup tests over the spec-level groups,
+    or the override announced on the line -/
+def swE (K : Kit F) (C : Curve F) : SWCfg F where
+  a := C.a
+  b := C.b
+  inSubgroup := match C.sub with
+    | some f => f
+    | none => defaultInSubgroup C.h1 (fun P => P.infinity || K.swKills C.a C.b C.r P.x P.y)
+
+def teE (C : Curve F) : TECfg F where
+  a := C.a
+  d := C.b
+  inSubgroup := fun P => teSmul C.a C.b C.r P == TEAff.zero
+
 /-- the four point kinds handled uniformly: parse, model (de)serialisers, printers, canonical affine form -/
-structure PointKind (C : CurveCtx) where
+structure PointKind (F : Type) where
   T : Type
   parse : String → Option T
   show_ : T → String
   ser : T → Compress → Res (List Nat)
   de : Compress → Validate → M T
   /-- spec: affine coordinates denoted (`none` = SW identity) -/
-  canon : T → Option (Nat × Nat)
+  canon : T → Option (F × F)
   /-- spec: the representation a successful round trip returns -/
-  back : Option (Nat × Nat) → String
+  back : Option (F × F) → String
+  /-- spec side: affine coordinates of a representation printed by the deserialiser
+      (`none`: not of the shape a deserialiser returns) -/
+  unback : T → Option (Option (F × F))
 
-def swE (C : CurveCtx) : SWCfg (Fp C.c.p) := swCfgFp ⟨C.a⟩ ⟨C.b⟩ C.h1 C.r
-def teE (C : CurveCtx) : TECfg (Fp C.c.p) := teCfgFp ⟨C.a⟩ ⟨C.b⟩ C.r
-
-def pointKind (C : CurveCtx) (proj : Bool) : PointKind C :=
-  let K := fpCodec C.c
+def pointKind (K : Kit F) (C : Curve F) (proj : Bool) : PointKind F :=
+  let Kc := K.codec
+  let one : F := 1
   match C.te, proj with
   | false, false =>
-    { T := SWAff (Fp C.c.p), parse := parseSwAff C.c.p, show_ := swAffStr,
-      ser := fun P cm => swSerialize K P cm, de := fun cm vd => swDeserialize K (swE C) cm vd,
+    { T := SWAff F, parse := parseSwAff K, show_ := swAffStr K,
+      ser := fun P cm => swSerialize Kc P cm, de := fun cm vd => swDeserialize Kc (swE K C) cm vd,
       canon := swAffCanon,
-      back := fun P => match P with | none => "inf" | some (x, y) => hex x ++ "/" ++ hex y }
+      back := fun P => match P with | none => "inf" | some (x, y) => fStr K x ++ "/" ++ fStr K y,
+      unback := fun P => some (swAffCanon P) }
   | false, true =>
-    { T := SWProj (Fp C.c.p),
-      parse := fun s => match parseFps C.c.p s with | some [x, y, z] => some ⟨x, y, z⟩ | _ => none,
-      show_ := swProjStr,
-      ser := fun P cm => swProjSerialize K P cm, de := fun cm vd => swProjDeserialize K (swE C) cm vd,
+    { T := SWProj F,
+      parse := fun s => match parseFs K s with | some [x, y, z] => some ⟨x, y, z⟩ | _ => none,
+      show_ := swProjStr K,
+      ser := fun P cm => swProjSerialize Kc P cm, de := fun cm vd => swProjDeserialize Kc (swE K C) cm vd,
       canon := swProjCanon,
       back := fun P => match P with
-        | none => hex (1 % C.c.p) ++ "/" ++ hex (1 % C.c.p) ++ "/0"
-        | some (x, y) => hex x ++ "/" ++ hex y ++ "/" ++ hex (1 % C.c.p) }
+        | none => fStr K one ++ "/" ++ fStr K one ++ "/" ++ fStr K (0 : F)
+        | some (x, y) => fStr K x ++ "/" ++ fStr K y ++ "/" ++ fStr K one,
+      -- a deserialised projective point is `(x, y, 1)` or `(1, 1, 0)`
+      unback := fun P =>
+        if P.z = 0 then (if P.x = one ∧ P.y = one then some none else none)
+        else if P.z = one then some (some (P.x, P.y)) else none }
   | true, false =>
-    { T := TEAff (Fp C.c.p),
-      parse := fun s => match parseFps C.c.p s with | some [x, y] => some ⟨x, y⟩ | _ => none,
-      show_ := teAffStr,
-      ser := fun P cm => teSerialize K P cm, de := fun cm vd => teDeserialize K (teE C) cm vd,
-      canon := fun P => some (P.x.val, P.y.val),
-      back := fun P => match P with | none => "?" | some (x, y) => hex x ++ "/" ++ hex y }
+    { T := TEAff F,
+      parse := fun s => match parseFs K s with | some [x, y] => some ⟨x, y⟩ | _ => none,
+      show_ := teAffStr K,
+      ser := fun P cm => teSerialize Kc P cm, de := fun cm vd => teDeserialize Kc (teE C) cm vd,
+      canon := fun P => some (P.x, P.y),
+      back := fun P => match P with | none => "?" | some (x, y) => fStr K x ++ "/" ++ fStr K y,
+      unback := fun P => some (some (P.x, P.y)) }
   | true, true =>
-    { T := TEProj (Fp C.c.p),
-      parse := fun s => match parseFps C.c.p s with | some [x, y, t, z] => some ⟨x, y, t, z⟩ | _ => none,
-      show_ := teProjStr,
-      ser := fun P cm => teProjSerialize K P cm, de := fun cm vd => teProjDeserialize K (teE C) cm vd,
+    { T := TEProj F,
+      parse := fun s => match parseFs K s with | some [x, y, t, z] => some ⟨x, y, t, z⟩ | _ => none,
+      show_ := teProjStr K,
+      ser := fun P cm => teProjSerialize Kc P cm, de := fun cm vd => teProjDeserialize Kc (teE C) cm vd,
       canon := fun P => some (teProjCanon P),
       back := fun P => match P with
         | none => "?"
-        | some (x, y) => hex x ++ "/" ++ hex y ++ "/" ++ hex (x * y % C.c.p) ++ "/" ++ hex (1 % C.c.p) }
+        | some (x, y) => fStr K x ++ "/" ++ fStr K y ++ "/" ++ fStr K (x * y) ++ "/" ++ fStr K one,
+      unback := fun P => if P.z = one ∧ P.t = P.x * P.y then some (some (P.x, P.y)) else none }
 
-def sizeOfKind (C : CurveCtx) (cm : Compress) : Nat :=
-  if C.te then teSerializedSize (fpCodec C.c) cm else swSerializedSize (fpCodec C.c) cm
+def sizeOfKind (K : Kit F) (C : Curve F) (cm : Compress) : Nat :=
+  if C.te then teSerializedSize K.codec cm else swSerializedSize K.codec cm
 
-def validCanon (C : CurveCtx) (P : Option (Nat × Nat)) : Bool :=
-  if C.te then (match P with | some q => teValid C q | none => false) else swValid C P
+def validCanon (K : Kit F) (C : Curve F) (P : Option (F × F)) : Bool :=
+  if C.te then (match P with | some q => teValid K C q | none => false) else swValid K C P
 
-def onCurveCanon (C : CurveCtx) (P : Option (Nat × Nat)) : Bool :=
+def onCurveCanon (C : Curve F) (P : Option (F × F)) : Bool :=
   if C.te then (match P with | some q => teOnCurve C q | none => false) else swOnCurve C P
 
-def runPrt (C : CurveCtx) (proj : Bool) (cm : Compress) (vd : Validate) (ps : String) (impl : String) :
+def reducedCanon (K : Kit F) (P : Option (F × F)) : Bool :=
+  match P with
+  | none => true
+  | some (x, y) => reducedF K x && reducedF K y
+
+def runPrt (K : Kit F) (C : Curve F) (proj : Bool) (cm : Compress) (vd : Validate) (ps : String) (impl : String) :
     Option (String × String) := do
-  let PK := pointKind C proj
+  let PK := pointKind K C proj
   let P ← PK.parse ps
-  let m := rtStr (PK.ser P cm) (sizeOfKind C cm) (runM (PK.de cm vd)) PK.show_
+  let m := rtStr (PK.ser P cm) (sizeOfKind K C cm) (runM (PK.de cm vd)) PK.show_
   let canon := PK.canon P
   let verdict :=
     if impl == "panic" then "bad:panic"
@@ -521,13 +596,13 @@ def runPrt (C : CurveCtx) (proj : Bool) (cm : Compress) (vd : Validate) (ps : St
       | [bs, size, de, used] =>
         match parseList? bs, parseHex? size with
         | some bytes, some size =>
-          if size != specPointSize C cm then "bad:size-formula"
+          if size != specPointSize K C cm then "bad:size-formula"
           else if bytes.length != size then "bad:size-mismatch"
-          else if !(if C.te then (match canon with | some q => encStrictTE C cm bytes q | none => false)
-                    else encStrictSW C cm bytes canon) then "bad:bytes"
+          else if !(if C.te then (match canon with | some q => encStrictTE K cm bytes q | none => false)
+                    else encStrictSW K cm bytes canon) then "bad:bytes"
           else
             let want :=
-              if vd == .yes && !validCanon C canon then "err:invalid"
+              if vd == .yes && !validCanon K C canon then "err:invalid"
               else "ok " ++ PK.back canon
             if de != want then "bad:want-de=" ++ want
             else if used != hex size then "bad:consumed"
@@ -536,36 +611,11 @@ def runPrt (C : CurveCtx) (proj : Bool) (cm : Compress) (vd : Validate) (ps : St
       | _ => "bad:" ++ impl
   some (m, verdict)
 
-/-- parse a point printed by the harness into its affine coordinates (spec side; `none` = unparsable) -/
-def canonOfString (C : CurveCtx) (proj : Bool) (s : String) : Option (Option (Nat × Nat) × Bool) :=
-  -- second component: all printed coordinates are reduced
-  let p := C.c.p
-  match C.te, proj with
-  | false, false =>
-    (parseSwAff p s).map (fun P => (swAffCanon P, P.x.val < p && P.y.val < p))
-  | false, true =>
-    match parseFps p s with
-    | some [x, y, z] =>
-      -- a deserialised projective point is `(x, y, 1)` or `(1, 1, 0)`
-      if z.val == 0 then (if x.val == 1 % p && y.val == 1 % p then some (none, true) else none)
-      else if z.val == 1 % p then some (some (x.val, y.val), x.val < p && y.val < p)
-      else none
-    | _ => none
-  | true, false =>
-    match parseFps p s with
-    | some [x, y] => some (some (x.val, y.val), x.val < p && y.val < p)
-    | _ => none
-  | true, true =>
-    match parseFps p s with
-    | some [x, y, t, z] =>
-      if z.val == 1 % p && t.val == x.val * y.val % p then some (some (x.val, y.val), x.val < p && y.val < p) else none
-    | _ => none
-
-def runMpde (C : CurveCtx) (proj : Bool) (cm : Compress) (vd : Validate) (bs : List Nat) (impl : String) :
+def runMpde (K : Kit F) (C : Curve F) (proj : Bool) (cm : Compress) (vd : Validate) (bs : List Nat) (impl : String) :
     Option (String × String) := do
-  let PK := pointKind C proj
+  let PK := pointKind K C proj
   let m := deStr PK.show_ (runM (PK.de cm vd) bs)
-  let size := specPointSize C cm
+  let size := specPointSize K C cm
   let verdict :=
     if impl == "panic" then "bad:panic"
     else match impl.splitOn ";" with
@@ -577,18 +627,43 @@ def runMpde (C : CurveCtx) (proj : Bool) (cm : Compress) (vd : Validate) (bs : L
           else if bs.length < size then (if de.startsWith "err:" then "ok" else "bad:want=err")
           else if de.startsWith "ok " then
             if used != size then "bad:consumed"
-            else match canonOfString C proj (de.drop 3).toString with
+            else match (PK.parse (de.drop 3).toString).bind PK.unback with
               | none => "bad:shape"
-              | some (canon, reduced) =>
-                if !reduced then "bad:range"
-                else if !(if C.te then (match canon with | some q => decConsistentTE C cm bs q | none => false)
-                          else decConsistentSW C cm bs canon) then "bad:not-the-encoded-point"
-                else if vd == .yes && !validCanon C canon then "bad:invalid-point-accepted"
+              | some canon =>
+                if !reducedCanon K canon then "bad:range"
+                else if !(if C.te then (match canon with | some q => decConsistentTE K C cm bs q | none => false)
+                          else decConsistentSW K C cm bs canon) then "bad:not-the-encoded-point"
+                else if vd == .yes && !validCanon K C canon then "bad:invalid-point-accepted"
                 else "ok"
           else if de.startsWith "err:" then "ok"
           else "bad:" ++ impl
       | _ => "bad:" ++ impl
   some (m, verdict)
+
+/-- a point line: `kind a b r h1 rep cm vd payload` over the field of `K` -/
+def runPoint (K : Kit F) (mal : Bool) (kind a b r h1 rep cm vd payload impl : String) : Option (String × String) := do
+  let C ← parseCurve K kind a b r h1
+  let proj ← if rep == "proj" then some true else if rep == "aff" then some false else none
+  let cm ← parseCompress cm
+  let vd ← parseValidate vd
+  if mal then runMpde K C proj cm vd (← parseList? payload) impl
+  else runPrt K C proj cm vd payload impl
+
+end generic
+
+/-- dispatch on the coordinate field: `_` = `Fp p`, `2:<β>` = `Fp[u]/(u² − β)` -/
+def runPointLine (mal : Bool) (args : List String) (impl : String) : Option (String × String) :=
+  match args with
+  | [kind, p, n, t, a, b, r, h1, rep, cm, vd, payload] => do
+    let p ← parseHex? p
+    let n ← parseHex? n
+    if t == "_" then runPoint (kitFp ⟨p, n⟩) mal kind a b r h1 rep cm vd payload impl
+    else match t.splitOn ":" with
+      | ["2", beta] => do
+        let beta ← parseHex? beta
+        runPoint (kitFp2 ⟨p, n⟩ beta) mal kind a b r h1 rep cm vd payload impl
+      | _ => none
+  | _ => none
 
 /-! ## dispatch -/
 
@@ -612,14 +687,8 @@ def run (op : String) (args : List String) (impl : String) : Option (String × S
   | "mfdefl", [p, n, t, fname, bs] =>
     let F ← parseFD p n t
     runMfdefl F fname (← parseList? bs) impl
-  | "prt", [kind, p, n, t, a, b, r, h1, rep, cm, vd, ps] =>
-    let C ← parseCD kind p n t a b r h1
-    let proj ← if rep == "proj" then some true else if rep == "aff" then some false else none
-    runPrt C proj (← parseCompress cm) (← parseValidate vd) ps impl
-  | "mpde", [kind, p, n, t, a, b, r, h1, rep, cm, vd, bs] =>
-    let C ← parseCD kind p n t a b r h1
-    let proj ← if rep == "proj" then some true else if rep == "aff" then some false else none
-    runMpde C proj (← parseCompress cm) (← parseValidate vd) (← parseList? bs) impl
+  | "prt", _ => runPointLine false args impl
+  | "mpde", _ => runPointLine true args impl
   | _, _ => none
 
 end Ark.DrvC09
